@@ -186,9 +186,10 @@ pub fn run(o: &Opts) -> Report {
             Ok((file, _)) => {
                 let r = catch(|| { let mut d = WebPDecoder::new(Cursor::new(file.clone())).ok()?; let mut b = vec![0u8; d.output_buffer_size()?]; d.read_image(&mut b).ok()?; Some((d.has_alpha(), b)) });
                 let exp = expand(ci, &data);
-                let ok = match &r { Ok(Some((ha, b))) => if *ha { *b == exp } else { *b == crate::webpfile::drop_alpha(&exp) }, _ => false };
+                // the decoder must report alpha exactly when the colour type has it (the alpha
+                // channel must survive the round trip with metadata attached)
+                let ok = match &r { Ok(Some((ha, b))) => *ha == alpha && if *ha { *b == exp } else { *b == crate::webpfile::drop_alpha(&exp) }, _ => false };
                 let lib_ok = oracle::decode_rgba(&file).map(|(_, _, l)| l == exp).unwrap_or(false);
-                let _ = alpha;
                 if !ok || !lib_ok {
                     rep.disagree(Disagreement { case, got: format!("crate ok={ok} libwebp ok={lib_ok}"), expected: "both return the input".into(), class: "violation", obligation: "C04: the produced file decodes with both decoders to the input pixels, with any metadata attached".into(), detail: String::new() });
                 }
